@@ -74,7 +74,7 @@ struct cstorage {
         char *p = static_cast<char *>(ptr) - 16;
         int id = *reinterpret_cast<int *>(p);
         std::size_t s0 = *reinterpret_cast<std::size_t *>(p + 8);
-        g_cx->ev(5, id, (s0 == sz ? "-f" : "-f?") + std::to_string(id));
+        g_cx->ev(6, id, (s0 == sz ? "-f" : "-f?") + std::to_string(id));
         ::operator delete(p);
     }
 };
@@ -94,7 +94,7 @@ struct guard {   // RAII guard; only the object that currently owns the token re
     guard(guard &&o) : id(o.id), tag(o.tag), owner(std::exchange(o.owner, false)) {}
     guard(const guard &) = delete;
     ~guard() {
-        if (owner) g_cx->ev(tag == 'a' ? 4 : 3, id, std::string("~") + tag + std::to_string(id));
+        if (owner) g_cx->ev(tag == 'a' ? 5 : 4, id, std::string("~") + tag + std::to_string(id));
     }
 };
 
@@ -141,62 +141,67 @@ template <typename T> future<T> fcoro_fn(cstorage &st, int id, guard g, std::vec
 
 template <typename T> async_t<T> make(int id) { return coro_fn<T>(store_for(id), id, guard(id, 'a'), g_cx->script(id)); }
 
-// `co_await EXPR`, value extracted with GET; exceptions caught iff the act says so
-#define AWAIT_STEP(EXPR, GET)                                                              \
+// `co_await EXPR`, value extracted with GET; exceptions caught iff the act says so; SRC names the awaited party
+#define SAW(O) g_cx->ev(2, id * 1000L + nsaw, "s" + std::to_string(id) + "." + std::to_string(nsaw) + ":" + (SRCV) + "=" + (O)), ++nsaw
+#define AWAIT_STEP(EXPR, GET, SRC)                                                         \
     do {                                                                                   \
+        const std::string SRCV = SRC;                                                      \
         if (caught) {                                                                      \
             std::string o;                                                                 \
             try {                                                                          \
                 if constexpr (std::is_void_v<T>) { co_await EXPR; o = "ok"; }              \
                 else { long v = GET(co_await EXPR); acc += v; o = "v:" + std::to_string(v); } \
             } catch (...) { o = classify(std::current_exception()); }                      \
-            g_cx->ev(2, id * 1000L + nsaw, "s" + std::to_string(id) + "." + std::to_string(nsaw) + "=" + o); \
-            ++nsaw;                                                                        \
+            SAW(o);                                                                        \
         } else {                                                                           \
             std::string o;                                                                 \
             if constexpr (std::is_void_v<T>) { co_await EXPR; o = "ok"; }                  \
             else { long v = GET(co_await EXPR); acc += v; o = "v:" + std::to_string(v); }  \
-            g_cx->ev(2, id * 1000L + nsaw, "s" + std::to_string(id) + "." + std::to_string(nsaw) + "=" + o); \
-            ++nsaw;                                                                        \
+            SAW(o);                                                                        \
         }                                                                                  \
     } while (0)
+
+#define RESULT(O) g_cx->ev(3, id, "r" + std::to_string(id) + "=" + (O))
+#define VALSTR(V) (std::is_void_v<T> ? std::string("ok") : "v:" + std::to_string(V))
 
 #define CORO_BODY()                                                                        \
     g_cx->ev(1, id, "b" + std::to_string(id));                                             \
     guard local(id, 'l');                                                                  \
     long acc = 0;                                                                          \
     int nsaw = 0;                                                                          \
+    try {                                                                                  \
     for (std::size_t pc = 0; pc < sc.size(); ++pc) {                                       \
         const char kind = sc[pc].kind;                                                     \
         const long n = sc[pc].n;                                                           \
         const bool caught = kind >= 'a' && kind <= 'z';                                    \
+        const std::string cn = "c" + std::to_string(n);                                    \
         switch (kind) {                                                                    \
             case 'c': acc += 0; break;                                                     \
             case 'w': case 'W':                                                            \
                 if (n >= 0 && n < (long)world<T>::cur->ext.size()) {                       \
-                    AWAIT_STEP(*world<T>::cur->ext[n].fut, peek);                          \
+                    AWAIT_STEP(*world<T>::cur->ext[n].fut, peek, "x" + std::to_string(n)); \
                 }                                                                          \
                 break;                                                                     \
             case 'a': case 'A':                                                            \
-                if (g_cx->take_absent((int)n)) { AWAIT_STEP(make<T>((int)n), take); }      \
+                if (g_cx->take_absent((int)n)) { AWAIT_STEP(make<T>((int)n), take, cn); }  \
                 break;                                                                     \
             case 's': case 'S':                                                            \
                 if (g_cx->take_absent((int)n)) {                                           \
                     auto child = make<T>((int)n);                                          \
                     future<T> f = child.start();                                           \
-                    AWAIT_STEP(f, take);                                                   \
+                    AWAIT_STEP(f, take, cn);                                               \
                 }                                                                          \
                 break;                                                                     \
             case 'f': case 'F':                                                            \
                 if (g_cx->take_absent((int)n)) {                                           \
                     auto child = make<T>((int)n);                                          \
                     future<T> f(child);                                                    \
-                    AWAIT_STEP(f, take);                                                   \
+                    AWAIT_STEP(f, take, cn);                                               \
                 }                                                                          \
                 break;                                                                     \
             case 'r': case 'R':                                                            \
                 if (g_cx->take_absent((int)n)) {                                           \
-                    AWAIT_STEP(fcoro_fn<T>(store_for((int)n), (int)n, guard((int)n, 'a'), g_cx->script((int)n)), take); \
+                    AWAIT_STEP(fcoro_fn<T>(store_for((int)n), (int)n, guard((int)n, 'a'), g_cx->script((int)n)), take, cn); \
                 }                                                                          \
                 break;                                                                     \
             case 'd':                                                                      \
@@ -210,13 +215,19 @@ template <typename T> async_t<T> make(int id) { return coro_fn<T>(store_for(id),
                 break;                                                                     \
             case 't': throw test_exc((int)n);                                              \
             case 'v':                                                                      \
+                RESULT(VALSTR(n + acc));                                                   \
                 if constexpr (std::is_void_v<T>) co_return;                                \
                 else co_return T(n + acc);                                                 \
             default: break;                                                                \
         }                                                                                  \
     }                                                                                      \
+    RESULT(VALSTR(acc));                                                                   \
     if constexpr (std::is_void_v<T>) co_return;                                            \
-    else co_return T(acc);
+    else co_return T(acc);                                                                 \
+    } catch (...) {                                                                        \
+        RESULT(classify(std::current_exception()));                                        \
+        throw;                                                                             \
+    }
 
 template <typename T> async_t<T> coro_fn(cstorage &, int id, guard, std::vector<act_t> sc) { CORO_BODY() }
 template <typename T> future<T> fcoro_fn(cstorage &, int id, guard, std::vector<act_t> sc) { CORO_BODY() }
@@ -271,12 +282,12 @@ template <typename T> void run_case(std::istream &in, int next) {
         for (std::size_t i = 0; i < slots.size(); ++i)
             if (!slots[i].reported && slots[i].f->ready()) {
                 slots[i].reported = true;
-                e.push_back({{6, (long)i}, "F" + std::to_string(i) + "=" + outcome_of(*slots[i].f)});
+                e.push_back({{7, (long)i}, "F" + std::to_string(i) + "=" + outcome_of(*slots[i].f)});
             }
         for (std::size_t k = 0; k < wd.ext.size(); ++k)
             if (!wd.ext[k].reported && wd.ext[k].fut->ready()) {
                 wd.ext[k].reported = true;
-                e.push_back({{7, (long)k}, "X" + std::to_string(k) + "=" + outcome_of(*wd.ext[k].fut)});
+                e.push_back({{8, (long)k}, "X" + std::to_string(k) + "=" + outcome_of(*wd.ext[k].fut)});
             }
         std::stable_sort(e.begin(), e.end(), [](auto &a, auto &b) { return a.first < b.first; });
         std::vector<std::string> evs;
@@ -319,7 +330,7 @@ template <typename T> void run_case(std::istream &in, int next) {
             }
             for (std::size_t i = 0; i < slots.size(); ++i)
                 if (!slots[i].f->ready()) {
-                    cx.ev(8, (long)i, "hang:F" + std::to_string(i));
+                    cx.ev(9, (long)i, "hang:F" + std::to_string(i));
                     slots[i].f.release();   // a pending future cannot be destroyed
                     slots[i].reported = true;
                     slots[i].f.reset(new future<T>());
